@@ -108,12 +108,18 @@ def build_block(b, objs, cons_cache=None):
         kw = {}
         if b.get('alignment'):
             kw['alignment'] = b['alignment']
-        return sp.Merge([build_block(x, objs, cons_cache) for x in b['blocks']], cs, mode=b.get('mode', 'repeat'), **kw)
+        subs = [build_block(x, objs, cons_cache) for x in b['blocks']]
+        if not cs and not kw and b.get('mode', 'repeat') == 'repeat':
+            return sp.Merge(subs)          # as a user would write it: every argument at its default
+        return sp.Merge(subs, cs, mode=b.get('mode', 'repeat'), **kw)
     if op == 'nest':
         kw = {}
         if b.get('alignment'):
             kw['alignment'] = b['alignment']
-        return sp.Nest(build_block(b['outer'], objs, cons_cache), build_block(b['inner'], objs, cons_cache), cs, **kw)
+        o, i = build_block(b['outer'], objs, cons_cache), build_block(b['inner'], objs, cons_cache)
+        if not cs and not kw:
+            return sp.Nest(o, i)           # default arguments
+        return sp.Nest(o, i, cs, **kw)
     raise ValueError(op)
 
 
